@@ -29,6 +29,9 @@ with open(os.path.join(ROOT, "seeded", "RESULTS.md"), "w") as f:
             "| id | files | confirmed | quick checks | what (first line of the author's description) |\n|---|---|---|---|---|\n")
     for r in rows:
         f.write("| %s | %s | %s | %s | %s |\n" % r)
-    caught = sum(1 for r in rows if "caught" in r[3])
-    f.write("\n%d of %d changes are caught by at least one quick check.\n" % (caught, len(rows)))
+    conf = [r for r in rows if r[2] == "yes"]
+    caught = sum(1 for r in conf if "caught" in r[3])
+    f.write("\n%d of the %d confirmed changes are caught by at least one quick check; %d further candidates are not "
+            "confirmed on the current tree (see their meta.json: invalidated by a later repair, or flaky with the existing suite).\n"
+            % (caught, len(conf), len(rows) - len(conf)))
 print(open(os.path.join(ROOT, "seeded", "RESULTS.md")).read()[-600:])
